@@ -297,6 +297,8 @@ def _alarm(signum, frame):
 def run_one(prop, case, index, timeout):
     ctx = Ctx(prop.PID, case, index)
     status = "ok"
+    from vmon import contracts
+    contracts.REC.reset()
     if timeout and hasattr(signal, "setitimer"):
         signal.signal(signal.SIGALRM, _alarm)
         signal.setitimer(signal.ITIMER_REAL, timeout)
@@ -322,12 +324,25 @@ def run_one(prop, case, index, timeout):
     finally:
         if timeout and hasattr(signal, "setitimer"):
             signal.setitimer(signal.ITIMER_REAL, 0)
+    from vmon import contracts
+    contracts.fold_into(ctx)
     return ctx, status
+
+
+def install_contracts(prop):
+    from vmon import contracts
+    which = getattr(prop, "CONTRACTS", "all")
+    if which == "all":
+        contracts.install_all()
+    else:
+        for w in which:
+            getattr(contracts, "install_%s_contracts" % w)()
 
 
 def run_shard(prop, tier, seed, shard, nshards, limit=None, case_timeout=120.0):
     """Run the cases i with i % nshards == shard; return a JSON-able result dict."""
     t0 = time.time()
+    install_contracts(prop)
     if hasattr(prop, "setup"):
         prop.setup()
     reach = Reach(getattr(prop, "ANCHOR_FILES", []))
@@ -480,7 +495,7 @@ def finish(prop, tier, seed, merged, problems, info, wall_s, replay_of=None):
             pid, d["entry"].get("text", ""), kk,
             sum(c for k2, c in merged["vcount"].items() if match_known(known, k2) is d["entry"])))
 
-    rdir = os.path.join(HOME, "replay", pid)
+    rdir = os.path.join(os.environ.get("VMON_REPLAY_DIR") or os.path.join(HOME, "replay"), pid)
     written = []
     if new and replay_of is None:
         os.makedirs(rdir, exist_ok=True)
@@ -552,8 +567,9 @@ def finish(prop, tier, seed, merged, problems, info, wall_s, replay_of=None):
             "assumptions": list(getattr(prop, "ASSUMPTIONS", [])) + COMMON_ASSUMPTIONS,
             "wall_s": round(wall_s, 2), "violations": int(sum(merged["vcount"][k] for k in new_keys)),
         }
-        os.makedirs(os.path.join(HOME, "evidence"), exist_ok=True)
-        with open(os.path.join(HOME, "evidence", pid + ".json"), "w") as f:
+        evdir = os.environ.get("VMON_EVIDENCE_DIR") or os.path.join(HOME, "evidence")
+        os.makedirs(evdir, exist_ok=True)
+        with open(os.path.join(evdir, pid + ".json"), "w") as f:
             f.write(jdump(ev, indent=1))
             f.write("\n")
 
